@@ -53,7 +53,7 @@ ASSUMPTIONS = [
 REQUIRED_CLASSES = [
     "box:identity", "cyl:identity", "box:maps", "cyl:maps",
     "ray:miss", "ray:hit", "ray:inside-start", "ray:degenerate", "ray:axis-parallel", "ray:diagonal", "ray:tiny-tilt", "ray:generic",
-    "pipeline:re-used-for-several-observations", "ray:tangent", "ray:in-phi-plane", "ray:vertical", "ray:two-passes", "ray:skippable-pass", "ray:periodic-image",
+    "pipeline:re-used-for-several-observations", "pipeline:two-on-one-observer", "ray:tangent", "ray:in-phi-plane", "ray:vertical", "ray:two-passes", "ray:skippable-pass", "ray:periodic-image",
     "step:default", "step:0.3cell", "step:3cell", "n=min_samples",
     "map:mask", "map:voxel_map", "map:via-setter", "map:via-constructor", "map:with-holes", "map:merged", "map:empty-bin",
     "tf:identity", "tf:translate", "tf:rotate_y90", "tf:generic",
@@ -958,6 +958,26 @@ def _run_pipeline(case, g, gc, world, rt, O, D, Ow, Dw, K, nb, hit, ref, V, clas
             V.add("pipeline:2D:%s:re-used:raises:%s" % (pk, type(e).__name__), "observing again with the same RayTransferPipeline2D raised", "a matrix", "%s: %s" % (type(e).__name__, str(e)[:200]))
         ntrace += len(sel) * ps
         cam.parent = None
+    # two ray-transfer pipelines on ONE observer (both kinds in one pass): each matrix must be what the pipeline gives alone
+    if M is not None and M.shape == (nx, ny, bins):
+        other = "power" if pk == "radiance" else "radiance"
+        pa, pb = RayTransferPipeline2D(kind=pk), RayTransferPipeline2D(kind=other)
+        cam2 = VectorCamera(po, pd, pipelines=[pa, pb], parent=world)
+        setup(cam2)
+        try:
+            cam2.observe()
+            Ma, Mb = np.asarray(pa.matrix), np.asarray(pb.matrix)
+            tolm = 1e-12 * max(1.0, float(np.abs(M).max()))
+            # (VectorCamera: sensitivity 1, so both kinds give the same numbers)
+            if Ma.shape != M.shape or Mb.shape != M.shape or (np.abs(Ma - M) > tolm).any() or (np.abs(Mb - M) > tolm).any():
+                V.add("pipeline:2D:two-pipelines-on-one-observer:differs-from-single-pipeline", "two RayTransferPipeline2D (radiance and power) attached to one camera: a matrix differs from the one the pipeline gives alone",
+                      M.reshape(-1, bins)[:3].tolist(), {"first": Ma.reshape(-1, bins)[:3].tolist() if Ma.ndim == 3 else list(Ma.shape),
+                                                        "second": Mb.reshape(-1, bins)[:3].tolist() if Mb.ndim == 3 else list(Mb.shape)})
+        except Exception as e:  # noqa
+            V.add("pipeline:2D:two-pipelines-on-one-observer:raises:%s" % type(e).__name__, "observing with two ray-transfer pipelines raised", "two matrices", "%s: %s" % (type(e).__name__, str(e)[:200]))
+        ntrace += 2 * len(sel) * ps
+        cam2.parent = None
+        classes.append("pipeline:two-on-one-observer")
     classes.append("pipeline:re-used-for-several-observations")
     classes.append("pipeline:2D:" + pk)
     classes.append("pipeline:0D:" + pk)
